@@ -114,7 +114,7 @@ def run(ctx: core.Run):
     # =========================== layers ======================================================
     layer_cases = []
     combos = [(s, d, dp) for s in pc.MODES for d in DOC_MODES for dp in DEPTHS]
-    reps = 1 if quick else 6
+    reps = 1 if quick else 12
     for rep in range(reps):
         for (s, d, dp) in combos:
             w, h = rng.choice(sizes)
